@@ -116,7 +116,7 @@ func c17(w *core.World, r *core.Report) {
 				ok := false
 				if len(a) == 3 {
 					if el, isV := core.VariadicElems(a[2]); isV && len(el) == 2 {
-						id := param(f, "id")
+						id := paramOf(f, "string", "id")
 						ok = isParam(id)(el[0]) && core.DependsOn(el[1], func(v ssa.Value) bool { return core.IsFieldLoad(v, "", "RunId") })
 					}
 				}
@@ -132,7 +132,8 @@ func c17(w *core.World, r *core.Report) {
 func ruleStaleGC(w *core.World, r *core.Report) {
 	// (a) DelStaleCheckpoint: the hdel is reached only for entries that are not the spared newest and are older than the threshold
 	if f := fn(w, r, "pkg/redis/checkpoint.DelStaleCheckpoint"); f != nil {
-		except := param(f, "exceptNewest")
+		except := paramOf(f, "bool", "exceptNewest")
+		maxPhi, argOfMax := argmaxIdiom(f, "Offset")
 		var hdel []core.Site
 		for _, s := range core.Sites(f, false) {
 			if s.Method == "Do" {
@@ -154,7 +155,7 @@ func ruleStaleGC(w *core.World, r *core.Report) {
 			n := 0
 			isMtime := func(v ssa.Value) bool { return fieldNameOfLoad(v) == "Mtime" }
 			// the threshold: now.Add(-1 * beforeNow).UnixNano(), nothing else applied to it
-			beforeNow := param(f, "beforeNow")
+			beforeNow := paramOf(f, "time.Duration", "beforeNow")
 			isThreshold := func(v ssa.Value) bool {
 				c, ok := core.Unwrap(v).(*ssa.Call)
 				if !ok || core.ResolveCall(c).Name != "(time.Time).UnixNano" {
@@ -215,10 +216,10 @@ func ruleStaleGC(w *core.World, r *core.Report) {
 				for _, fct := range p.Conds {
 					c, ok := core.AsCmp(fct.Cond, fct.Val)
 					if ok && c.Op == token.NEQ {
-						if ph, isPhi := core.Unwrap(c.Y).(*ssa.Phi); isPhi && ph.Comment == "newestDb" {
+						if ph, isPhi := core.Unwrap(c.Y).(*ssa.Phi); isPhi && argOfMax[ph] {
 							spared = true
 						}
-						if ph, isPhi := core.Unwrap(c.X).(*ssa.Phi); isPhi && ph.Comment == "newestDb" {
+						if ph, isPhi := core.Unwrap(c.X).(*ssa.Phi); isPhi && argOfMax[ph] {
 							spared = true
 						}
 					}
@@ -237,7 +238,7 @@ func ruleStaleGC(w *core.World, r *core.Report) {
 				continue
 			}
 			if fieldNameOfLoad(b.X) == "Offset" {
-				if ph, isPhi := b.Y.(*ssa.Phi); isPhi && ph.Comment == "newest" {
+				if ph, isPhi := b.Y.(*ssa.Phi); isPhi && ph == maxPhi {
 					okMax = true
 				}
 			}
@@ -357,7 +358,7 @@ func ruleMigrationOrder(w *core.World, r *core.Report) {
 		}
 	}
 	if f := fn(w, r, "(*syncer.syncer).seedBisyncNamespace"); f != nil {
-		seed := param(f, "seed")
+		seed := paramOf(f, "BisyncNamespaceSeed", "seed")
 		bad := ""
 		var badPos token.Pos
 		seeded := 0
@@ -575,4 +576,57 @@ func sameValue(a, b ssa.Value) bool {
 		}
 	}
 	return false
+}
+
+
+// argmaxIdiom recognises `if x.<field> > max { max = x.<field>; arg = k }`
+// carried round a loop: it returns the running maximum and the variables
+// that are updated together with it (the position of the maximum).
+func argmaxIdiom(f *ssa.Function, field string) (*ssa.Phi, map[*ssa.Phi]bool) {
+	args := map[*ssa.Phi]bool{}
+	var maxPhi *ssa.Phi
+	for _, in := range core.Instrs(f) {
+		cmp, ok := in.(*ssa.BinOp)
+		if !ok || cmp.Op != token.GTR || fieldNameOfLoad(cmp.X) != field {
+			continue
+		}
+		ph, ok := cmp.Y.(*ssa.Phi)
+		if !ok {
+			continue
+		}
+		// the maximum is updated with the compared value
+		fam := phiFamily(f, ph)
+		updated := false
+		for q := range fam {
+			for _, e := range q.Edges {
+				if core.Unwrap(e) == core.Unwrap(cmp.X) || (fieldNameOfLoad(e) == field && e.Type() == cmp.X.Type()) {
+					updated = true
+				}
+			}
+		}
+		if !updated {
+			continue
+		}
+		maxPhi = ph
+		// variables assigned on the edge taken when the comparison holds
+		for _, in2 := range core.Instrs(f) {
+			q, ok := in2.(*ssa.Phi)
+			if !ok || fam[q] {
+				continue
+			}
+			for i := range q.Edges {
+				if _, isPhi := q.Edges[i].(*ssa.Phi); isPhi {
+					continue
+				}
+				for _, fct := range core.FactsAt(q.Block().Preds[i]) {
+					if fct.Val && fct.Cond == ssa.Value(cmp) {
+						for r2 := range phiFamily(f, q) {
+							args[r2] = true
+						}
+					}
+				}
+			}
+		}
+	}
+	return maxPhi, args
 }
